@@ -13,7 +13,8 @@ TRACE_SPEC = "Handler_Trace"
 NV = {  # deviation switch -> invariant TLC must violate
     "C03": [("redirect_no_restore_on_err", "ReplyShape"), ("redirect_no_restore_on_err", "PluginContract"),
             ("cache_no_id_rewrite", "ReplyShape"), ("no_ra", "ReplyShape"), ("trunc_no_tc", "ReplyShape"),
-            ("trunc_wrong_size", "ReplyShape"), ("two_questions_ok", "ReplyShape")],
+            ("trunc_wrong_size", "ReplyShape"), ("two_questions_ok", "ReplyShape"),
+            ("cache_stores_preexisting", "CacheEntrySound")],
     "C15": [("client_opt_forwarded", "UpstreamSeesOneFreshOpt"), ("client_opt_forwarded", "NoClientOptionLeak"),
             ("respopt_always", "ReplyOptIffClientOpt"), ("respopt_twice", "OptNeverDuplicatedOrAltered"),
             ("do_not_mirrored", "DoMirrored"), ("upstream_opt_not_popped", "OptNeverDuplicatedOrAltered"),
@@ -248,6 +249,43 @@ def udp_big_cases(rng, idx0, n):
     return out
 
 
+def follow_case(rng, idx, variant):
+    """a response is already in the slot (hosts answer / hit of an outer cache) when redirect renames the query in front of
+    a cache; afterwards a second client asks for the redirect TARGET itself. Each client is owed its own question."""
+    first = {"kind": "local", "impl": "hosts", "ans": True} if variant == "local" else \
+            {"kind": "cache", "impl": "cache", "hit": True, "key": "own"}
+    nodes = [first, {"kind": "redirect", "impl": "redirect", "match": True},
+             {"kind": "cache", "impl": "cache", "hit": False, "key": "own"}]
+    if rng.random() < 0.5:
+        nodes.append({"kind": "accept", "impl": "accept"})
+    return {"idx": idx, "mode": "direct", "tr": rng.choice(["udp", "tcp"]), "mal": "ok", "opt": None, "nodes": nodes,
+            "chunk": "whole", "reps": 1, "follow": True,
+            "id": rng.randint(0, 0xFFFF), "name": mk_name(rng, idx, "lower"), "target": "t%d.redirect-target.test." % idx,
+            "qtype": rng.choice([1, 28]), "qclass": 1, "flags": 0x0100, "settle": 0, "expected": None, "beh": None}
+
+
+PREEXISTING = "cache-stores-preexisting-response:hit-carries-other-question"
+
+
+def preexisting_pattern(case, trace, line):
+    """the rejected line is the snapshot behind a cache whose hit carries the ORIGINAL question of a redirected query (or, for
+    the follow-up client, another client's question): the entry was stored from a response that was already in the slot"""
+    if not (0 < line <= len(trace)):
+        return False
+    ev = trace[line - 1]
+    if ev["ev"] != "Down" or ev["s"]["r"]["k"] != "msg" or ev["s"]["r"]["id"] != "own":
+        return False
+    nodes = case["nodes"]
+    p = ev["pos"] - 1
+    if ev.get("seq", "main") != "main" or not (1 <= p <= len(nodes)) or nodes[p - 1]["impl"] != "cache":
+        return False
+    if not any(n["impl"] == "redirect" and n.get("match") for n in nodes[:p - 1]):
+        return False
+    if case.get("follow"):
+        return ev["s"]["qq"] == "own" and ev["s"]["r"]["qq"] == "other"
+    return ev["s"]["qq"] == "redir" and ev["s"]["r"]["qq"] == "own"
+
+
 def composite_case(rng, idx, prop):
     """chains around the composite components (dual_selector, fallback, forward) - validated by leg C only"""
     def up(c="ans", impl="terminal"):
@@ -410,6 +448,10 @@ def run_cases(ctx, prop, binary, cases, label):
         c, r, ti = owner[idx]
         sig, what = attribute(c, traces[idx], info.get("line_in_trace") or 0, prop)
         sig = classify_known(c, sig)
+        if prop == "C03" and preexisting_pattern(c, traces[idx], info.get("line_in_trace") or 0):
+            sig = PREEXISTING
+            what = ("a cache entry holds a response for ANOTHER question: cache.Exec stored the response that was already in the "
+                    "slot (hosts answer / outer cache hit) under the key of the redirected query; ") + what
         if c.get("pair"):
             sig = "interleaved-clients-on-stale-cache-entry:" + sig
             what = ("two clients (IDs id, id^0x1111) were both held behind the cache on the same stale lazy-cache entry; "
